@@ -17,6 +17,12 @@
 (*    byte at RegFifoAddrPtr and increments the 8-bit pointer (wraps).      *)
 (*    In implicit-header mode the length is the configured PayloadLength.   *)
 (*                                                                          *)
+(*  LR1110 (UM.LR1110 3.7, 8.x): a 256-byte data buffer; GetRxBufferStatus   *)
+(*    returns (PayloadLengthRx, RxStartBufferPointer) and ReadBuffer8        *)
+(*    (offset, length) the bytes from offset on, each response preceded by   *)
+(*    Stat1 in a separate read transaction.  Only explicit-header reception  *)
+(*    is recorded for this chip.                                             *)
+(*                                                                          *)
 (* The harness fills the chip buffer with the position-dependent pattern    *)
 (* Pat(i), so the expected bytes are a function of (offset, length) only.   *)
 EXTENDS Integers, Sequences
@@ -35,8 +41,11 @@ PacketLen(implicitHeader, reportedLen, configuredLen) ==
 
 \* SX126x command status (bits 3:1 of the status byte) that reports a failed command
 CmdStatus(status) == (status \div 2) % 8
+\* LR1110 (UM.LR1110 3.3.2): Stat1 bits 3:1 = 0 CMD_FAIL, 1 CMD_PERR (the response is not valid), 2 CMD_OK, 3 CMD_DAT
 StatusIsError(chip, status) ==
-    IF chip \in {"sx1261", "sx1262", "stm32wl"} THEN CmdStatus(status) \in {3, 4, 5} ELSE FALSE
+    IF chip \in {"sx1261", "sx1262", "stm32wl"} THEN CmdStatus(status) \in {3, 4, 5}
+    ELSE IF chip = "lr1110" THEN CmdStatus(status) \in {0, 1}
+    ELSE FALSE
 
 (* ---- the outcome relation -------------------------------------------------
    An outcome is a record
@@ -90,5 +99,6 @@ ASSUME \A i, j \in 0..255 : i # j => Pat(i) # Pat(j)
 ASSUME ChipByte(250, 10) = Pat(4)
 ASSUME ExpectedSegs(3, 0, 0) = << >>
 ASSUME ExpectedSegs(250, 12, 12) = << <<1, 250, 12>> >>
+ASSUME StatusIsError("lr1110", 0) /\ StatusIsError("lr1110", 3) /\ ~StatusIsError("lr1110", 4) /\ ~StatusIsError("lr1110", 7)
 ASSUME StatusIsError("sx1262", 6) /\ StatusIsError("sx1262", 10) /\ ~StatusIsError("sx1262", 4) /\ ~StatusIsError("sx1276", 6)
 =============================================================================
